@@ -26,7 +26,7 @@ ASSUME = ["type expectations are classes (integral / floating / bool) except for
           "conditional / Min / Max / ** columns may be floating although Python's value is an int"]
 
 PREFIX = {"atlas": "atlas_xaod", "cms_aod": "cms_aod", "cms_miniaod": "cms_miniaod"}
-EXACT = {"pt": "double", "eta": "double", "nTrk": "int", "width": "float", "isGood": "bool"}
+EXACT = {"pt": "double", "eta": "double", "nTrk": "int", "width": "float", "isGood": "bool", "ttype": "float"}  # ttype: declared double with tree_type float
 EXACT_VEC = {"hits": "int", "trkPts": "float", "weights": "double"}
 NAMES = ["a", "b", "pt", "pt2", "pt22", "col1", "col0", "jet1pt", "x_1", "JetPt", "n", "a_very_long_branch_name_that_goes_on_and_on_0123456789", "int", "class", "result", "tree", "i_obj1", "_col1", "e"]
 ODD_NAMES = ["jet pt", "pt-1", "pt.x", "1st", "met/GeV", "a+b", "ünï"]
